@@ -1098,6 +1098,11 @@ def fixed_cases(tier):
                  cpu="6502", modes=(0, 1)))
     out.append(C([L("first"), TR("t"), S("s", [L("first")]), T("t")], cpu="6502"))
     out.append(C([L("a"), T("x"), S("s", [TR("x"), L("a"), T("x"), TR("x")]), TR("x")], cpu="z80"))
+    # regression: an EQU that waits for a later pass (forward label) still opens a new area in every pass
+    CD = lambda n: dict(k="cdef", n=n)
+    CR = lambda n: dict(k="cref", n=n)
+    out.append(C([E("v1", 1, of=dict(n="fwd", q=None)), TR("skip"), T("skip"), R("v1"), L("fwd")], cpu="6502"))
+    out.append(C([L("glob"), E("v1", 2, of=dict(n="fwd", q=None)), CR("loc"), CD("loc"), R("v1"), L("fwd")]))
     # the manual's named example: the same $$loop on both sides of a label
     out.append(C([T("loop"), TR("loop"), L("split"), T("loop"), TR("loop")]))
     # regression: FORWARD does not redirect references that carry a section
